@@ -12,7 +12,7 @@ VARIABLES S, tn, val, stage, wireV, bytes, back
 
 vars == <<S, tn, val, stage, wireV, bytes, back>>
 
-Init == /\ \/ \E i \in 1..Len(Specs) : S = SchemaOf(i) /\ tn = "T" \o ToString(i) /\ val \in ValuesOf(i)
+Init == /\ \/ \E i \in 1..Len(Specs) : S = SchemaOf(i) /\ tn = NameOf(i) /\ val \in ValuesOf(i)
            \/ \E c \in MultiCases : S = MultiSchema /\ tn = c[1] /\ val = c[2]
         /\ stage = "value" /\ wireV = Nil /\ bytes = <<>> /\ back = NoDef
 
